@@ -655,6 +655,35 @@ pub fn gen_c01(tier: &str, seed: u64, out: &str, mc: Option<&str>) -> Value {
         n_hug += interior_events(&mut t, "interior1", id, &mut rng, &[1e-13, 1e-10, 1e-7, 1e-4, 1e-2, 0.3]);
         t.cut();
     }
+    // the same point through all resolutions, descending then ascending, on one thread ("every point x all resolutions"
+    // is the property's own quantifier; it also exposes answers derived from an earlier answer for the same point)
+    let nsweep = if tier == "thorough" { 1500 } else { 150 };
+    let mut n_sweep = 0u64;
+    for i in 0..nsweep {
+        let mut p = if i % 3 == 0 { *rng.pick(&specials) } else { random_point(&mut rng) };
+        if i % 2 == 0 {
+            // move the point next to an edge of its cell at some resolution (overhang of the neighbours)
+            let f = 2 + rng.below(8) as i32;
+            if let Ok(c) = a5::lonlat_to_cell(p, f) { if let (Ok(cc), Some(ring)) = (a5::cell_to_lonlat(c), ring_ll(c, 1, false)) {
+                let v = *rng.pick(&ring); p = towards(cc, v, 0.85 + 0.3 * rng.f64());
+                if p.latitude().abs() > 90.0 { continue; }
+            } }
+        }
+        // descending, ascending, and a random order (an answer may be derived from ANY earlier answer for the point)
+        let mut order: Vec<i32> = (0..=29).rev().chain(0..=29).collect();
+        let mut shuffled: Vec<i32> = (0..=29).collect();
+        rng.shuffle(&mut shuffled);
+        order.extend(shuffled);
+        if i % 2 == 1 {
+            // fresh thread, coarse-after-moderate pairs only: res f in 2..9 directly followed by res 0 and 1
+            order = vec![]; for f in [2, 3, 4, 5, 6, 7, 8, 9] { order.extend([f, 0, f, 1]); }
+        }
+        let pp = p;
+        let evs: Vec<Value> = std::thread::spawn(move || order.iter().map(|&r| lookup_event(pp, r, "sweep")).collect()).join().unwrap();
+        for e in evs { t.emit(e); n_sweep += 1; }
+        t.cut();
+    }
+    n += n_sweep;
     // mass probing guided by the branch hook (see mass_probe): only the HARD lookups are classified and recorded --
     // exactly the cases on which the search's only assumption (A5Lookup: the true cell is among the estimates) is thin
     let (mut hard_all, hist_all, n_mass) = mass_probe(tier, seed);
